@@ -1,5 +1,6 @@
 import FDAModel.Core.Proto
 import FDAModel.Stats
+import FDAModel.CovPath
 open FDA FDA.Proto
 
 /-- Scale for the float tolerance of one curve's noise estimate: mean over the windows
@@ -83,6 +84,35 @@ def answer (l : String) : String :=
       match Generated.diffSeq k with
       | some d => showVec d
       | none => "none"
+    | none => "bad"
+  | ["covirr", mk, x] =>
+    -- raw covariance of irregular data: `mk` = 0/1 observation masks, `x` = (centred or raw) values, both N × m
+    match parseMat? mk, parseMat? x with
+    | some K, some X =>
+      let N := X.length
+      let m := ncols X
+      let Ka := (K.map List.toArray).toArray
+      let Xa := (X.map List.toArray).toArray
+      let C := tabA2 m m (rawCovIrr N (fun i a => rd2 Ka i a != 0) (rd2 Xa))
+      showMat (toMat m m (symmetrise (rd2 C)))
+    | _, _ => "bad"
+  | ["long", x, mu] =>
+    -- training rows of the LP covariance smoother: off-diagonal entries of XcᵀXc/(n−1), Xc = X − mu (smoothed mean)
+    match parseMat? x, parseVec? mu with
+    | some X, some Mu =>
+      let N := X.length
+      let m := ncols X
+      let Xa := (X.map List.toArray).toArray
+      let ma := Mu.toArray
+      let D := tabA2 N m (centerSmoothed (fun _ => rd ma) N (rd2 Xa))
+      let C := tabA2 m m (covOf N 1 (rd2 D))
+      let rows := longFormat m (removeDiag (rd2 C))
+      if rows.isEmpty then "-" else
+      ";".intercalate (rows.map fun r => toString r.1 ++ "," ++ toString r.2.1 ++ "," ++ showRat r.2.2)
+    | _, _ => "bad"
+  | ["window", p] =>
+    match p.toNat? with
+    | some k => toString (roundHalfEven ((k : ℚ) / 4)) ++ " " ++ toString (roundHalfEven (3 * (k : ℚ) / 4))
     | none => "bad"
   | ["round", x] =>
     match parseRat? x with
